@@ -26,37 +26,37 @@ func init() { cmds["node"] = cmdNode }
 // ---------------------------------------------------------------- scenario
 
 type ScConf struct {
-	Version     int    `json:"version"`
-	Sys         int    `json:"sys"`
-	Comp        int    `json:"comp"`
-	Dialect     string `json:"dialect"` // common | none | nohb | no66 | fakehb
-	InKey       B      `json:"inkey"`
-	OutKey      B      `json:"outkey"`
-	HbDisable   bool   `json:"hb_disable"`
-	HbPeriodMs  int    `json:"hb_period_ms"`
-	HbSysType   int    `json:"hb_systype"`
-	HbAutopilot int    `json:"hb_autopilot"`
-	SrEnable    bool   `json:"sr_enable"`
-	SrFreq      int    `json:"sr_freq"`
-	IdleMs      int    `json:"idle_ms"`
-	ReadMs      int    `json:"read_ms"`
-	WriteMs     int    `json:"write_ms"`
-	ReconnectMs int    `json:"reconnect_ms"`
-	ExpectInit  string `json:"expect_init"` // "" | "fail"
+	Version     int     `json:"version"`
+	Sys         int     `json:"sys"`
+	Comp        int     `json:"comp"`
+	Dialect     string  `json:"dialect"` // common | none | nohb | no66 | fakehb
+	InKey       B       `json:"inkey"`
+	OutKey      B       `json:"outkey"`
+	HbDisable   bool    `json:"hb_disable"`
+	HbPeriodMs  int     `json:"hb_period_ms"`
+	HbSysType   int     `json:"hb_systype"`
+	HbAutopilot int     `json:"hb_autopilot"`
+	SrEnable    bool    `json:"sr_enable"`
+	SrFreq      int     `json:"sr_freq"`
+	IdleMs      int     `json:"idle_ms"`
+	ReadMs      int     `json:"read_ms"`
+	WriteMs     int     `json:"write_ms"`
+	ReconnectMs int     `json:"reconnect_ms"`
+	ExpectInit  string  `json:"expect_init"` // "" | "fail"
 	IdleSilent  [][]int `json:"idle_silent"`
 	IdleActive  [][]int `json:"idle_active"`
-	SkipHbRate  bool   `json:"skip_hb_rate"`
-	RetryInit   bool   `json:"retry_init"` // a first Initialize fails at a last, extra endpoint (busy port); Initialize is then called again on the SAME Node value without it
-	LegacyCtor  bool   `json:"legacy_ctor"` // the node is made by the deprecated NewNode(NodeConf) instead of Node.Initialize
-	ReuseMsgs   bool   `json:"reuse_msgs"` // writer goroutines reuse one message struct, changing it between calls
-	Sid         int    `json:"sid"`
+	SkipHbRate  bool    `json:"skip_hb_rate"`
+	RetryInit   bool    `json:"retry_init"`  // a first Initialize fails at a last, extra endpoint (busy port); Initialize is then called again on the SAME Node value without it
+	LegacyCtor  bool    `json:"legacy_ctor"` // the node is made by the deprecated NewNode(NodeConf) instead of Node.Initialize
+	ReuseMsgs   bool    `json:"reuse_msgs"`  // writer goroutines reuse one message struct, changing it between calls
+	Sid         int     `json:"sid"`
 }
 
 type ScEndpoint struct {
 	Kind        string `json:"kind"` // custom | tcp_server | udp_server | tcp_client | udp_client | udp_broadcast | serial | bad_address | busy_port
 	SerialFails int    `json:"serial_fails"`
-	LMode       string `json:"lmode"` // tcp_client: initial behaviour of the fake server (accept | refuse | accept_close)
-	Drain       bool   `json:"drain"` // custom: data queued before Close is still readable after Close (like a pipe)
+	LMode       string `json:"lmode"`         // tcp_client: initial behaviour of the fake server (accept | refuse | accept_close)
+	Drain       bool   `json:"drain"`         // custom: data queued before Close is still readable after Close (like a pipe)
 	ErrWithData bool   `json:"err_with_data"` // custom: an injected read error is returned together with the last bytes (n > 0, err != nil)
 }
 
@@ -70,27 +70,27 @@ type ScItem struct {
 }
 
 type ScStep struct {
-	Op     string  `json:"op"`
-	Ep     int     `json:"ep"`
-	Peer   int     `json:"peer"`
-	Inst   int     `json:"inst"`
-	Item   *ScItem `json:"item"`
-	Chunks []int   `json:"chunks"`
-	Mode   string  `json:"mode"`
-	At     int     `json:"at"`
-	Run    bool    `json:"run"`
-	G      int     `json:"g"`
-	Kind   string  `json:"kind"`
-	Target string  `json:"target"` // "" | "ep" | "foreign" | "nil"
-	Tag    int     `json:"tag"`
-	Raw    bool    `json:"raw"`
-	Err    string  `json:"err"` // twrite_mode: what the failing write returns: "" (plain) | deadline | eof | closed_pipe | net_timeout
-	Bad    string  `json:"bad"` // "" | id_outside | v1_big | no_dialect_msg
-	Point  string  `json:"point"`
-	Ms     int     `json:"ms"`
-	From   string  `json:"from"`
-	N      int     `json:"n"`
-	Sync   bool    `json:"sync"`
+	Op     string        `json:"op"`
+	Ep     int           `json:"ep"`
+	Peer   int           `json:"peer"`
+	Inst   int           `json:"inst"`
+	Item   *ScItem       `json:"item"`
+	Chunks []int         `json:"chunks"`
+	Mode   string        `json:"mode"`
+	At     int           `json:"at"`
+	Run    bool          `json:"run"`
+	G      int           `json:"g"`
+	Kind   string        `json:"kind"`
+	Target string        `json:"target"` // "" | "ep" | "foreign" | "nil"
+	Tag    int           `json:"tag"`
+	Raw    bool          `json:"raw"`
+	Err    string        `json:"err"` // twrite_mode: what the failing write returns: "" (plain) | deadline | eof | closed_pipe | net_timeout
+	Bad    string        `json:"bad"` // "" | id_outside | v1_big | no_dialect_msg
+	Point  string        `json:"point"`
+	Ms     int           `json:"ms"`
+	From   string        `json:"from"`
+	N      int           `json:"n"`
+	Sync   bool          `json:"sync"`
 	Items  []ScBurstItem `json:"items"`
 }
 
@@ -115,26 +115,26 @@ var errWriteInjected = errors.New("verif: injected write error")
 var errClosedT = errors.New("verif: transport closed")
 
 type ctlRWC struct {
-	p      *player
-	ep     int
-	mu     sync.Mutex
-	cond   *sync.Cond
-	inq    [][]byte
-	rerr   []error // one-shot read errors, delivered after the data queued before them
-	rerrAt []int   // number of chunks that must be consumed first
-	taken  int
-	closed bool
-	closes int
-	wmode  string
-	wcount int
-	failAt int
-	drain  bool  // queued data stays readable after Close
+	p           *player
+	ep          int
+	mu          sync.Mutex
+	cond        *sync.Cond
+	inq         [][]byte
+	rerr        []error // one-shot read errors, delivered after the data queued before them
+	rerrAt      []int   // number of chunks that must be consumed first
+	taken       int
+	closed      bool
+	closes      int
+	wmode       string
+	wcount      int
+	failAt      int
+	drain       bool // queued data stays readable after Close
 	errWithData bool
 	failUntil   int // writes up to this call number fail ("failn" mode)
 	partial     bool
 	failErr     error // what a failing Write returns (nil: a plain error)
-	okCnt  int64 // completed writes (pacing only)
-	sick   bool  // a write was blocked or failed: excluded from pacing
+	okCnt       int64 // completed writes (pacing only)
+	sick        bool  // a write was blocked or failed: excluded from pacing
 }
 
 func newCtl(p *player, ep int) *ctlRWC {
@@ -285,43 +285,43 @@ type player struct {
 	ctls  map[int]*ctlRWC
 	addrs map[int]string
 
-	mu        sync.Mutex
-	insts     map[*gomavlib.Channel]int   // channel pointer -> instance number (per endpoint)
-	instEp    map[*gomavlib.Channel]int   // channel pointer -> endpoint
-	byInst    map[[2]int]*gomavlib.Channel // (ep, inst) -> channel
-	nInst     map[int]int
-	opened    map[[2]int]bool
-	closedEv  map[[2]int]bool
-	gates     map[string]*gate
-	consumerOn bool
-	consCond  *sync.Cond
-	pauseReq  chan struct{} // rendezvous: the consumer has left its receive when a pause is recorded
-	evClosed  chan struct{}
+	mu              sync.Mutex
+	insts           map[*gomavlib.Channel]int    // channel pointer -> instance number (per endpoint)
+	instEp          map[*gomavlib.Channel]int    // channel pointer -> endpoint
+	byInst          map[[2]int]*gomavlib.Channel // (ep, inst) -> channel
+	nInst           map[int]int
+	opened          map[[2]int]bool
+	closedEv        map[[2]int]bool
+	gates           map[string]*gate
+	consumerOn      bool
+	consCond        *sync.Cond
+	pauseReq        chan struct{} // rendezvous: the consumer has left its receive when a pause is recorded
+	evClosed        chan struct{}
 	closeFromLoopOn int // tag: consumer calls Close when it receives the frame with this tag (0 = never)
-	closeOnce sync.Once
-	closeStarted bool
-	closeDone chan struct{}
+	closeOnce       sync.Once
+	closeStarted    bool
+	closeDone       chan struct{}
 
 	writers map[int]chan func()
 	wwg     sync.WaitGroup
 	callSeq int64
 
-	peers     map[[2]int]net.Conn
-	listeners map[int]net.Listener // fake servers for client endpoints
-	hangFds   map[int]int          // raw listening sockets whose accept queue is kept full: connects to them hang
-	hangConns map[int][]net.Conn
-	lmode     map[int]string
+	peers           map[[2]int]net.Conn
+	listeners       map[int]net.Listener // fake servers for client endpoints
+	hangFds         map[int]int          // raw listening sockets whose accept queue is kept full: connects to them hang
+	hangConns       map[int][]net.Conn
+	lmode           map[int]string
 	serialFailsLeft map[int]int
-	peerSeq   map[int]int
-	peerEnded map[[2]int]bool
-	kept      []keptFrame // frames delivered in events (consumer goroutine only until the scenario is over)
-	nodeA     atomic.Pointer[gomavlib.Node] // what the hooks see (unset while the deprecated constructor is still running)
-	pktConns  map[int]net.PacketConn // fake UDP server of a udp_client endpoint / listener of a udp_broadcast endpoint
-	udpSrc    map[string]int         // udp_client: source address of the node's socket -> channel instance
-	serials   []*ctlRWC
-	lastAct   int64
-	reuse     map[int]*common.MessageNamedValueInt
-	expect    map[int]int64 // frames the harness expects on each custom endpoint (pacing only, never a verdict)
+	peerSeq         map[int]int
+	peerEnded       map[[2]int]bool
+	kept            []keptFrame                   // frames delivered in events (consumer goroutine only until the scenario is over)
+	nodeA           atomic.Pointer[gomavlib.Node] // what the hooks see (unset while the deprecated constructor is still running)
+	pktConns        map[int]net.PacketConn        // fake UDP server of a udp_client endpoint / listener of a udp_broadcast endpoint
+	udpSrc          map[string]int                // udp_client: source address of the node's socket -> channel instance
+	serials         []*ctlRWC
+	lastAct         int64
+	reuse           map[int]*common.MessageNamedValueInt
+	expect          map[int]int64 // frames the harness expects on each custom endpoint (pacing only, never a verdict)
 }
 
 func (p *player) ms() int { return int(time.Since(p.t0) / time.Millisecond) }
